@@ -223,8 +223,8 @@ def check_adopted(ctx, rule_prefix="link"):
             for n in g.nodes:
                 if n.kind == "assign" and isinstance(n.ast, ast.Assign) and any(
                         isinstance(t, ast.Subscript) and isinstance(t.value, ast.Attribute) and t.value.attr == "_data" for t in n.ast.targets):
-                    if isinstance(n.ast.value, ast.Name) and any(d.kind == "param" and d.name == p for d in rd.reaching(n, n.ast.value.id)) \
-                            or (isinstance(n.ast.value, ast.Name) and n.ast.value.id == p):
+                    if isinstance(n.ast.value, ast.Name) and (any(k == "param" and pl == p for k, pl in value_sources(fn, n.ast.value, n))
+                                                              or n.ast.value.id == p):
                         uses.append(("stored", n))
                 if n.kind == "return" and fn.name == "_validate" and isinstance(n.ast.value, ast.Name):
                     srcs = value_sources(fn, n.ast.value, n)
@@ -235,7 +235,8 @@ def check_adopted(ctx, rule_prefix="link"):
                 nsites += 1
                 for attr in wanted:
                     links = {m for m in g.nodes if m.kind == "assign" and isinstance(m.ast, ast.Assign) and any(
-                        isinstance(t, ast.Attribute) and t.attr == attr and isinstance(t.value, ast.Name) and t.value.id == p for t in m.ast.targets)}
+                        isinstance(t, ast.Attribute) and t.attr == attr and isinstance(t.value, ast.Name) and (
+                            t.value.id == p or any(k == "param" and pl == p for k, pl in value_sources(fn, t.value, m))) for t in m.ast.targets)}
                     redefs = {m for m in g.nodes if any(d.name == p for d in rd.defs_at.get(m, []))}
                     # only paths on which p is a configuration: they take the True edge of one of the tests
                     bad = None
